@@ -4,6 +4,7 @@ import (
 	"fmt"
 	"go/token"
 	"go/types"
+	"strings"
 
 	"golang.org/x/tools/go/ssa"
 )
@@ -94,4 +95,164 @@ func isFieldElement(v ssa.Value, depth int) bool {
 		}
 	}
 	return false
+}
+
+// c05DeclaredSizeSSA: the size a definition declares for a field, read from the SSA of writeDefMesg
+// (independent of how the three cases are spelled): the fieldDef written with binary.Write has
+//
+//	size  = byte(Size(BaseType(f.t)))                       on every path,
+//	size  = f.length                                        where the base type equals BaseString,
+//	size  = size * f.length  (either operand order)         where it does not and f.t.Array(),
+//
+// and no other store; num = f.num, btype = BaseType(f.t).
+func c05DeclaredSizeSSA(c *Ctx) (bool, string) {
+	fn := c.ssaFn(c.fn(c.fit, "encoder.writeDefMesg"))
+	if fn == nil {
+		return false, "writeDefMesg not found"
+	}
+	var fdef *ssa.Alloc
+	for _, b := range fn.Blocks {
+		for _, ins := range b.Instrs {
+			if al, ok := ins.(*ssa.Alloc); ok {
+				if n, ok := al.Type().(*types.Pointer).Elem().(*types.Named); ok && n.Obj().Name() == "fieldDef" {
+					if fdef != nil {
+						return false, "more than one fieldDef value in writeDefMesg"
+					}
+					fdef = al
+				}
+			}
+		}
+	}
+	if fdef == nil {
+		return false, "no fieldDef value in writeDefMesg"
+	}
+	st := fdef.Type().(*types.Pointer).Elem().Underlying().(*types.Struct)
+	stores := map[string][]*ssa.Store{}
+	var write ssa.CallInstruction
+	for _, ref := range *fdef.Referrers() {
+		switch u := ref.(type) {
+		case *ssa.FieldAddr:
+			name := st.Field(u.Field).Name()
+			for _, r2 := range *u.Referrers() {
+				if s, ok := r2.(*ssa.Store); ok && s.Addr == ssa.Value(u) {
+					stores[name] = append(stores[name], s)
+				}
+			}
+		case *ssa.UnOp:
+			for _, r2 := range *u.Referrers() {
+				if mi, ok := r2.(*ssa.MakeInterface); ok {
+					for _, r3 := range *mi.Referrers() {
+						if ci, ok := r3.(ssa.CallInstruction); ok {
+							if _, _, _, isW := binaryWriteArgs(ci); isW {
+								write = ci
+							}
+						}
+					}
+				}
+			}
+		}
+	}
+	if write == nil {
+		return false, "the fieldDef value is not handed to binary.Write"
+	}
+	norm := func(v ssa.Value) string { return strings.ReplaceAll(stripAddrs(pathOf(v)), modPath+"/internal/types.", "types.") }
+	isBaseOfRow := func(v ssa.Value) (string, bool) {
+		p := norm(v)
+		const pre = "call[(types.Fit).BaseType](*"
+		if strings.HasPrefix(p, pre) && strings.HasSuffix(p, ".t)") {
+			return strings.TrimSuffix(strings.TrimPrefix(p, pre), ".t)"), true
+		}
+		return "", false
+	}
+	if len(stores["num"]) != 1 || len(stores["btype"]) != 1 {
+		return false, "num / btype of the written fieldDef are not stored exactly once"
+	}
+	row, okB := isBaseOfRow(stores["btype"][0].Val)
+	if !okB || norm(stores["num"][0].Val) != "*"+row+".num" {
+		return false, "the written fieldDef's num / btype are not the row's number and BaseType(): " + norm(stores["num"][0].Val) + " / " + norm(stores["btype"][0].Val)
+	}
+	baseSize := "conv<byte>(call[(types.Base).Size](call[(types.Fit).BaseType](*" + row + ".t)))"
+	length := "*" + row + ".length"
+	isStrCond := func(v ssa.Value) bool {
+		bo, ok := v.(*ssa.BinOp)
+		if !ok || bo.Op != token.EQL {
+			return false
+		}
+		x, k := bo.X, bo.Y
+		if _, isK := x.(*ssa.Const); isK {
+			x, k = k, x
+		}
+		kc, isK := k.(*ssa.Const)
+		if !isK || kc.Value == nil || kc.Int64() != 7 {
+			return false
+		}
+		if r2, ok := isBaseOfRow(x); ok && r2 == row {
+			return true
+		}
+		if ld, ok := x.(*ssa.UnOp); ok && ld.Op == token.MUL {
+			if fa, ok := ld.X.(*ssa.FieldAddr); ok && fa.X == ssa.Value(fdef) && st.Field(fa.Field).Name() == "btype" {
+				return true
+			}
+		}
+		return false
+	}
+	isArrCond := func(v ssa.Value) bool {
+		return norm(v) == "call[(types.Fit).Array](*"+row+".t)"
+	}
+	var s0, s1, s2 *ssa.Store
+	for _, s := range stores["size"] {
+		v := norm(s.Val)
+		switch {
+		case v == baseSize && s0 == nil:
+			s0 = s
+		case v == length && s1 == nil:
+			s1 = s
+		default:
+			bo, ok := s.Val.(*ssa.BinOp)
+			okMul := false
+			if ok && bo.Op == token.MUL {
+				a, b := norm(bo.X), norm(bo.Y)
+				isCur := func(p string, v ssa.Value) bool {
+					if p == baseSize {
+						return true
+					}
+					if ld, ok := v.(*ssa.UnOp); ok && ld.Op == token.MUL {
+						if fa, ok := ld.X.(*ssa.FieldAddr); ok && fa.X == ssa.Value(fdef) && st.Field(fa.Field).Name() == "size" {
+							return true
+						}
+					}
+					return false
+				}
+				okMul = (isCur(a, bo.X) && b == length) || (isCur(b, bo.Y) && a == length)
+			}
+			if !okMul || s2 != nil {
+				return false, "the declared size is also set to " + v
+			}
+			s2 = s
+		}
+	}
+	if s0 == nil || s1 == nil || s2 == nil {
+		return false, "the declared size is not set in the three recognised ways (base size / profile length for strings / base size x length for arrays)"
+	}
+	if !instrDominates(s0, write.(ssa.Instruction)) || !s0.Block().Dominates(s1.Block()) || !s0.Block().Dominates(s2.Block()) {
+		return false, "the base size is not stored first on every path to the write"
+	}
+	if !domByBoolEdge(fn, s1.Block(), true, isStrCond) {
+		return false, "the profile length is declared under something other than `base type == string`"
+	}
+	if !domByBoolEdge(fn, s2.Block(), false, isStrCond) || !domByBoolEdge(fn, s2.Block(), true, isArrCond) {
+		return false, "base size x length is declared under something other than `not a string and an array`"
+	}
+	for _, s := range []*ssa.Store{s1, s2} {
+		if write.Block().Dominates(s.Block()) && write.Block() != s.Block() {
+			return false, "the declared size is changed after the definition was written"
+		}
+		if extra := extraControllersBy(c, fn, s.Block(), true, func(v ssa.Value) bool {
+			_, _, isNil := nilTest(v)
+			return isNil || isStrCond(v) || isArrCond(v)
+		}); extra != "" {
+			return false, "the declared size also depends on " + extra
+		}
+	}
+	return true, "declared size = base size; strings: profile length; arrays: base size x profile length (read from the stores into the written fieldDef)"
 }
